@@ -65,6 +65,7 @@ def to_model(data_file: typing.IO, config: typing.Optional[STLReaderConfiguratio
       LOGGER.error("Bad TTI block")
       raise
     
-    progress_callback(i/m.get_tti_count())
+    # the GSI block may declare no TTI block at all
+    progress_callback(i / max(m.get_tti_count(), 1))
 
   return m.get_document()
